@@ -59,7 +59,9 @@ package prober
 //@ func backoff
 //@   ensures [C18.backoff-lower] baseDelay <= maxDelay ==> result >= baseDelay
 //@   ensures [C18.backoff-upper] baseDelay <= maxDelay ==> result <= maxDelay
-//@   ensures [C18.backoff-value] result == ite(bkIter(tofloat(baseDelay), tofloat(maxDelay), retries) >= tofloat(maxDelay), maxDelay, ite(max(baseDelay, toint(bkIter(tofloat(baseDelay), tofloat(maxDelay), retries))) > maxDelay, maxDelay, max(baseDelay, toint(bkIter(tofloat(baseDelay), tofloat(maxDelay), retries)))))
+// a non-positive base is returned as it is (constant in the retry count, hence monotone)
+//@   ensures [C18.backoff-nonpositive] baseDelay <= 0 ==> result == baseDelay
+//@   ensures [C18.backoff-value] baseDelay > 0 ==> result == ite(bkIter(tofloat(baseDelay), tofloat(maxDelay), retries) >= tofloat(maxDelay), maxDelay, ite(max(baseDelay, toint(bkIter(tofloat(baseDelay), tofloat(maxDelay), retries))) > maxDelay, maxDelay, max(baseDelay, toint(bkIter(tofloat(baseDelay), tofloat(maxDelay), retries)))))
 //@   loop 1 invariant max == tofloat(maxDelay) && !isnan(backoff) && same(bkIter(backoff, max, retries), bkIter(tofloat(baseDelay), tofloat(maxDelay), old(retries)))
 //@   loop 1 decreases retries
 //@ func init$1
